@@ -117,6 +117,8 @@ func (env *CEnv) asTerm(cv CV) *Term {
 			return v.Ref
 		}
 		cfail("interior pointer used as a value in a contract")
+	case *FnVal:
+		return IntLit(fnID(v.Fn))
 	}
 	cfail("expression has no term value (%T)", cv.V)
 	return nil
@@ -771,6 +773,19 @@ func (env *CEnv) call(x *CExpr) CV {
 				return CV{V: SlRef(t)}
 			}
 			return CV{V: t}
+		case "fresh":
+			// fresh(x): the object / backing array of x was allocated during the call (or x is nil)
+			v := env.eval(x.Args[0])
+			t := env.asTerm(v)
+			if t.Sort == SSlice {
+				t = SlRef(t)
+			} else if t.Sort == SIface {
+				t = IfRef(t)
+			}
+			if env.old == nil {
+				cfail("fresh() only in postconditions")
+			}
+			return CV{V: Or(Eq(t, IntLit(0)), IntLe(env.old.ac, t)), T: types.Typ[types.Bool]}
 		case "tagof":
 			v := env.eval(x.Args[0])
 			return CV{V: IfTag(env.asTerm(v))}
